@@ -122,7 +122,11 @@ func worker(jobFile string) int {
 	if (job.Race && job.Start%2 == 1) || job.Prop == "C14" {
 		// C14: App.Close reports failing closers through the logger from its goroutines - with the
 		// repository's own logger that code is part of what runs
-		world.InstallRealLogger()
+		if job.Start%4 == 1 {
+			world.InstallRealLogger("verif", "worker") // every other of these workers: a logger with two prefixes of its own
+		} else {
+			world.InstallRealLogger()
+		}
 	}
 	if job.Prop == "C07" && job.Start%2 == 1 {
 		// half of C07's workers run with a logger level above Panic: duplicates are dropped silently
